@@ -5,7 +5,7 @@ pairs; credentials parsed by the independent v3 reference (real build) and compa
 crafted raw ENC_REQs carrying UID/GID-looking fields."""
 import json, struct
 from ..vlib import leanlib, cbuild, judge
-from ..gen import g_dec
+from ..gen import g_dec, g_stages
 from . import _cred_common as cc
 from . import _cred_checks as K
 from . import _v3ref as R
@@ -40,6 +40,9 @@ def run(ctx):
         drv = leanlib.driver(ctx); h = cc.build_toy(ctx)
         judge.run_and_judge(ctx, "replay", rep.get("ops") or [], [h], [drv], what="identity (replay)")
         return
+    # enc_authenticate / dec_authenticate translated: client_uid / client_gid are exactly what auth_recv (the kernel query) stored
+    if g_stages.generate(ctx):
+        leanlib.check_props(ctx, "C02Stages")
     leanlib.check_props(ctx, "C03")
     drv = leanlib.driver(ctx)
     htoy = cc.build_toy(ctx)
